@@ -10,7 +10,7 @@ import numpy as np
 import torch
 import pypose as pp
 
-from ..core import rng, refmath
+from ..core import rng, refmath, boundary
 from ..core.outcome import Violation
 from .clocksim import GenNLS, nls_params, nls_ref
 
@@ -44,6 +44,8 @@ class LinNLS(pp.module.NLS):
         return x @ self.mat("A", t).mT + u @ self.mat("B", t).mT + self.mat("c1", t)
 
     def observation(self, x, u, t=None):
+        if getattr(self, "full_state", False):
+            return x            # full-state observation written as `return state`: the argument itself comes back
         return x @ self.mat("C", t).mT + u @ self.mat("D", t).mT + self.mat("c2", t)
 
 
@@ -66,6 +68,8 @@ def generate(seed, tier, prop="C13"):
            "pf_f32": r.random() < 0.35, "offset": r.choice([0.0, 0.0, 300.0]),
            "qr_at": r.choice(["ctor", "ctor", "call", "call-overrides", "call-once"]),
            "msqrt": r.choice(["default", "default", "lower-chol", "jitter-chol"]), "diagR": r.random() < 0.25}
+    cfg["full_state_obs"] = plant == "linear" and r.random() < 0.15      # y = x, observation() returns its argument
+    cfg["inplace_feedback"] = r.random() < 0.25     # the caller keeps estimate, covariance and input in buffers updated in place
     if filt == "PF":
         cfg["rs"] = round(r.uniform(-1, 2), 2); cfg["ps"] = round(r.uniform(-2, 1), 2); cfg["spread"] = r.choice([0, 1])
     ro = rng.stream(seed, "ops")
@@ -123,6 +127,8 @@ def _psd(P, what, step, key, need, slack=0.0, eps=2.3e-16):
 def execute(plan, prop, out, tr):
     c, s = plan["config"], plan["seed"]
     filt, n, m, q = c["filter"], c["n"], c["m"], c["q"]
+    if c.get("full_state_obs") and c["plant"] == "linear":
+        q = n
     dt = torch.float32 if (filt == "PF" and c.get("pf_f32")) else torch.float64
     tr.ev("plan", c)
     g = lambda name, shape, sc=1.0: rng.randn(s, ("plant", name), shape, dt, sc)
@@ -131,9 +137,17 @@ def execute(plan, prop, out, tr):
         A = g("A", (n, n))
         A = A * (c["rho"] / torch.linalg.eigvals(A).abs().max().clamp_min(1e-3))
         M = {"A": A, "B": g("B", (n, m)), "C": g("C", (q, n)), "D": g("D", (q, m)), "c1": g("c1", (n,)), "c2": g("c2", (q,))}
+        if c.get("full_state_obs"):
+            M["C"], M["D"], M["c2"] = torch.eye(n, dtype=dt), torch.zeros(n, m, dtype=dt), torch.zeros(n, dtype=dt)
         for k in list(M):
             M[k + "1"] = 0.3 * g(k + "1", tuple(M[k].shape))
+        if c.get("full_state_obs"):
+            for k in ("C1", "D1", "c21"):
+                M[k] = torch.zeros_like(M[k])
         model = LinNLS(M, c["tv"])
+        if c.get("full_state_obs"):
+            model.full_state = True
+            out.probe("observation-returns-its-argument")
     else:
         P_nl = nls_params(s, n, m, q, 3, c["omega"])
         model = GenNLS(P_nl)
@@ -202,7 +216,12 @@ def execute(plan, prop, out, tr):
             # one filter object, another sigma-point parameter at every step
             k = _kval(kmodes[rng.H(s, "k", i) % len(kmodes)], n)
             out.probe("ukf:k-varies")
-        u = rng.randn(s, ("u", i), (m,), dt)
+        u_new = rng.randn(s, ("u", i), (m,), dt)
+        if c.get("inplace_feedback") and i > 0:
+            u.copy_(u_new)          # the same input buffer, refreshed in place
+            boundary.refresh(u)
+        else:
+            u = u_new
         w = LQ @ rng.randn(s, ("w", i), (n,)).numpy(); v = LR @ rng.randn(s, ("v", i), (q,)).numpy()
         tval = 3 + 2 * i                     # the explicit time never equals the number of calls made so far
         targ = torch.tensor(tval) if (c["tv"] or c["plant"] == "nonlinear") else None
@@ -351,14 +370,26 @@ def execute(plan, prop, out, tr):
                 if not (z.max() <= zmax):
                     raise Violation("C13.pf", "PF step %d: estimate is %.1f sigma from the posterior mean of the particle "
                                     "model (N=%d, ESS %.2f)" % (i, z.max(), c["particles"], ess), i, "pf:mean")
-        x_est, P = xn.detach(), Pn.detach()
+        if c.get("inplace_feedback"):
+            # the caller's estimate and covariance live in buffers that are overwritten with the posterior
+            with torch.no_grad():
+                x_est.copy_(xn.detach()); P.copy_(Pn.detach())
+            boundary.refresh(x_est, P)
+            out.probe("feedback-in-place-buffers")
+        else:
+            x_est, P = xn.detach(), Pn.detach()
         if not torch.isfinite(x_est).all() or x_est.abs().max() > 1e6:
             break
         Ps = 0.5 * (P + P.mT)
         if torch.linalg.eigvalsh(Ps)[0] <= 1e-10 * Ps.abs().max():
             out.declined("C13.feedback(prior not PD)")      # cannot be a prior for the next step
             break
-        P = Ps          # a valid prior is symmetric: each step is judged on its own round-off
+        if c.get("inplace_feedback"):
+            with torch.no_grad():
+                P.copy_(Ps)
+            boundary.refresh(P)
+        else:
+            P = Ps      # a valid prior is symmetric: each step is judged on its own round-off
         out.sigs.add("%s|%s|n%d|q%d|s%d|%s|%s" % (filt, c["plant"] + ("tv" if c["tv"] else ""), n, q, min(i // 5, 5),
                                                "corr" if offd else "diag", c["kmode"] if filt == "UKF" else ""))
     out.nontrivial = len(plan["ops"]) > 1 or not c["diagP"]
